@@ -1,7 +1,7 @@
 import Mhub2.Step
 open Mhub2
 
-partial def loop (inp : IO.FS.Stream) (out : IO.FS.Stream) (h : Hub) : IO Unit := do
+partial def loop (inp : IO.FS.Stream) (out : IO.FS.Stream) (h : World) : IO Unit := do
   let line ← inp.getLine
   if line.isEmpty then return ()
   let (h', o) := step h line
